@@ -79,7 +79,8 @@ func CheckHashPassword(clientResp, scramble, encryptPassword []byte) bool {
 	// SHA1('password') XOR SHA1("20-bytes rnd"+SHA1(SHA1('password')))
 	// Server
 	// SHA1(client-response XOR SHA1("20-bytes rnd"+mysql.user.password))
-	if len(encryptPassword) == 0 {
+	// a mysql_native_password proof is exactly one SHA1 long
+	if len(encryptPassword) == 0 || len(clientResp) != sha1.Size {
 		return false
 	}
 	hashBytes, _ := hex.DecodeString(string(encryptPassword))
@@ -88,12 +89,14 @@ func CheckHashPassword(clientResp, scramble, encryptPassword []byte) bool {
 	crypt.Write(hashBytes)
 	hash := crypt.Sum(nil)
 
+	// the client's response is left untouched: other candidate passwords are checked against it afterwards
+	stage1 := make([]byte, len(clientResp))
 	for i := range clientResp {
-		clientResp[i] ^= hash[i]
+		stage1[i] = clientResp[i] ^ hash[i]
 	}
 
 	crypt.Reset()
-	crypt.Write(clientResp)
+	crypt.Write(stage1)
 	hash = crypt.Sum(nil)
 
 	return bytes.Equal(hashBytes, hash)
